@@ -1,4 +1,5 @@
 import OV.Lemmas.C06Sound
+import OV.Lemmas.C06Top
 /-!
   C06 — completeness of the transcribed matcher on OR-free patterns: if an assignment `A` makes
   node `n` an instance of node pattern `np`, then `_match_node` succeeds from every successful
@@ -339,5 +340,184 @@ theorem matchNode_complete (E : Env) (A : Assign) (hno : E.p.noOr = true) (htopo
     unfold matchNode
     obtain ⟨c', e, s, _⟩ := nodeStep_complete E A (matchNode E f) f ih hno htopo np n c (by omega) hs h
     exact ⟨c', e, s⟩
+
+/-! ## Top level: patterns with one output node whose outputs are outputs of that node -/
+
+theorem mapM_some {α β} (f : α → Option β) : ∀ l : List α, (∀ x ∈ l, ∃ y, f x = some y) →
+    ∃ out, l.mapM f = some out := by
+  intro l
+  induction l with
+  | nil => intro _; exact ⟨[], rfl⟩
+  | cons a l ih =>
+    intro h
+    obtain ⟨y, hy⟩ := h a (List.mem_cons_self ..)
+    obtain ⟨out, ho⟩ := ih (fun x hx => h x (List.mem_cons_of_mem _ hx))
+    exact ⟨y :: out, by simp [List.mapM_cons, hy, ho]⟩
+
+theorem boundTo_outputOf (A : Assign) (p : GPat) (np idx : Nat) (x : ValueId)
+    (h : A.boundTo p (.out np idx) (some x)) : A.outputOf p (.out np idx) = some (.val x) := by
+  unfold Assign.boundTo at h
+  unfold Assign.outputOf
+  rcases hn : p.vname (.out np idx) with _ | nm <;> simp only [hn] at h ⊢
+  · simp only [VPat.key] at h ⊢
+    simp [h, Bound.ofVal]
+  · simpa [Bound.ofVal] using h
+
+/-- every pattern output is an output of the (single) output node `np0` -/
+def OutputsOfRoot (p : GPat) (np0 : NPId) : Prop :=
+  ∀ vp ∈ p.outputs, ∃ idx P, vp = .out np0 idx ∧ p.nodes[np0]? = some P ∧ idx < P.outputs.length
+
+/-- the run of `_match_node` on the root that completeness guarantees -/
+theorem root_run_complete (E : Env) (A : Assign) (root : NodeId) (np0 : NPId)
+    (hno : E.p.noOr = true) (htopo : E.p.topo) (hsingle : E.p.outputNodes = [np0])
+    (hroot : OutputsOfRoot E.p np0) (hinst : Instance E root A) :
+    ∃ c outs, matchNode E E.p.fuel np0 root [{}] = (true, [c]) ∧ SLe c A ∧
+      outputValues E.p c = some outs := by
+  obtain ⟨n, hn, hs⟩ := hinst.outNodes np0 (by simp [hsingle])
+  have hr := hinst.rootNode np0 (by simp [hsingle])
+  rw [hr] at hn
+  cases hn
+  have hlt : np0 < E.p.nodes.length := by
+    cases hs with
+    | mk _ _ P N hP =>
+      rcases Nat.lt_or_ge np0 E.p.nodes.length with h | h
+      · exact h
+      · simp [List.getElem?_eq_none h] at hP
+  have s0 : SLe ({} : Partial) A :=
+    ⟨rfl, fun _ _ h => by simp at h, fun _ _ h => by simp at h, fun _ _ h => by simp at h⟩
+  have hfuel : E.p.fuel = E.p.nodes.length + 1 := rfl
+  rw [hfuel]
+  unfold matchNode
+  obtain ⟨c, e, s, hb⟩ := nodeStep_complete E A (matchNode E E.p.nodes.length) E.p.nodes.length
+    (matchNode_complete E A hno htopo _) hno htopo np0 root {} (Nat.le_of_lt hlt) hs s0
+  have hbound := hb (by simp)
+  have : ∀ vp ∈ E.p.outputs, ∃ y, (assignOf c).outputOf E.p vp = some y := by
+    intro vp hvp
+    obtain ⟨idx, P, rfl, hP, hidx⟩ := hroot vp hvp
+    cases hs with
+    | mk _ _ P' N hP' hN =>
+      rw [hP] at hP'
+      cases hP'
+      obtain ⟨x, _, hx⟩ := hbound P N hP hN idx hidx
+      exact ⟨_, boundTo_outputOf _ _ _ _ _ hx⟩
+  obtain ⟨outs, ho⟩ := mapM_some _ _ this
+  exact ⟨c, outs, e, s, by rw [outputValues_eq]; exact ho⟩
+
+theorem removable_validToReplace (g : Graph) (matched : List NodeId) (outs : List Bound)
+    (h : Removable g matched outs) : validToReplace g matched outs = true := by
+  unfold validToReplace
+  simp only [List.all_eq_true]
+  intro n hn
+  cases hg : g.nodes[n]? with
+  | none => rfl
+  | some gn =>
+    simp only [List.all_eq_true]
+    intro v hv
+    by_cases hc : outs.contains (Bound.val v) = true
+    · have : Bound.val v ∈ outs := by simpa using hc
+      simp [this]
+    · have hnot : Bound.val v ∉ outs := by simpa using hc
+      obtain ⟨h1, h2, h3⟩ := h n hn gn hg v hv hnot
+      have hc' : outs.contains (Bound.val v) = false := by simpa using hc
+      simp only [hc', Bool.false_or, Bool.and_eq_true, Bool.not_eq_true', List.all_eq_true]
+      refine ⟨⟨h1, fun c hcm => ?_⟩, ?_⟩
+      · simpa using h2 c hcm
+      · simpa using h3
+
+/-- `SimplePatternMatcher.match` on an instance: without the removability test it succeeds; with
+it, it succeeds exactly when the nodes/outputs it found pass `_valid_to_replace`. -/
+theorem matcher_complete_single (E : Env) (A : Assign) (root : NodeId) (np0 : NPId)
+    (hno : E.p.noOr = true) (htopo : E.p.topo) (hsingle : E.p.outputNodes = [np0])
+    (hroot : OutputsOfRoot E.p np0) (hinst : Instance E root A) :
+    (matcherMatch E root false).ok = true ∧
+      (∀ k x, (k, x) ∈ (matcherMatch E root false).nb → A.node k = some x) ∧
+      (∀ k x, (k, x) ∈ (matcherMatch E root false).vb → A.leaf k = some x) ∧
+      (∀ k x, (k, x) ∈ (matcherMatch E root false).bindings → A.names k = some x) ∧
+      ((matcherMatch E root true).ok =
+        validToReplace E.g (matcherMatch E root false).nodes (matcherMatch E root false).outputs) ∧
+      ((matcherMatch E root true).ok = true → matcherMatch E root true = matcherMatch E root false) := by
+  obtain ⟨c, outs, e, s, ho⟩ := root_run_complete E A root np0 hno htopo hsingle hroot hinst
+  have hf : matcherMatch E root false = Result.ofPartial c outs := by
+    unfold matcherMatch
+    simp only [hsingle]
+    unfold finish
+    simp [e, topPartial, ho]
+  have ht : matcherMatch E root true =
+      if validToReplace E.g c.nodes outs then Result.ofPartial c outs
+      else Result.ofPartial { c with ok := false } [] := by
+    unfold matcherMatch
+    simp only [hsingle]
+    unfold finish
+    simp only [e, topPartial, ho, Bool.not_true, Bool.false_eq_true, if_false, Bool.true_and]
+    cases validToReplace E.g c.nodes outs <;> simp
+  rw [hf, ht]
+  refine ⟨s.ok, s.n, s.v, s.b, ?_, ?_⟩
+  · cases hv : validToReplace E.g c.nodes outs <;> simp [Result.ofPartial, hv, s.ok]
+  · cases hv : validToReplace E.g c.nodes outs <;> simp [Result.ofPartial, hv]
+
+theorem patternMatch_of_ok (E : Env) (A : Assign) (root : NodeId) (rm : Bool)
+    (hok : (matcherMatch E root rm).ok = true)
+    (hn : ∀ k x, (k, x) ∈ (matcherMatch E root rm).nb → A.node k = some x)
+    (hv : ∀ k x, (k, x) ∈ (matcherMatch E root rm).vb → A.leaf k = some x)
+    (hchk : ChecksPass E.p A) (hcond : E.p.cond = true) :
+    ∃ r, patternMatch E root rm = some r ∧ r.nodes = (matcherMatch E root rm).nodes ∧
+      r.outputs = (matcherMatch E root rm).outputs := by
+  unfold patternMatch
+  have h1 : ∀ r : Result, r.nb = (matcherMatch E root rm).nb → checksPass E.p r = true := by
+    intro r hr
+    unfold checksPass
+    simp only [List.all_eq_true, hr]
+    intro kv hkv
+    cases hP : E.p.nodes[kv.1]? with
+    | none => rfl
+    | some P =>
+      have := hchk.nodes kv.1 kv.2 P (hn kv.1 kv.2 hkv) hP
+      simpa using this
+  have h2 : ∀ r : Result, r.vb = (matcherMatch E root rm).vb → valueChecksPass E.p r = true := by
+    intro r hr
+    unfold valueChecksPass
+    simp only [List.all_eq_true, hr]
+    intro kv hkv
+    obtain ⟨k, v⟩ := kv
+    cases k with
+    | outp a b => rfl
+    | leaf id =>
+      have := hchk.values id v (hv _ _ hkv)
+      simpa using this
+  refine ⟨{ matcherMatch E root rm with
+    bindings := bindInputs E.p.inputs (matcherMatch E root rm).bindings }, ?_, rfl, rfl⟩
+  dsimp only
+  rw [if_neg (by simp [hok]), if_neg (by simp [h1]), if_neg (by simp [h2]), if_neg (by simp [hcond])]
+
+theorem patternMatch_none_of_not_ok (E : Env) (root : NodeId) (rm : Bool)
+    (hok : (matcherMatch E root rm).ok = false) : patternMatch E root rm = none := by
+  unfold patternMatch
+  simp [hok]
+
+theorem patternMatch_complete_single (E : Env) (A : Assign) (root : NodeId) (np0 : NPId)
+    (hno : E.p.noOr = true) (htopo : E.p.topo) (hsingle : E.p.outputNodes = [np0])
+    (hroot : OutputsOfRoot E.p np0) (hinst : Instance E root A) (hchk : ChecksPass E.p A) :
+    ∃ r, patternMatch E root false = some r ∧
+      ((patternMatch E root true).isSome = true ↔ Removable E.g r.nodes r.outputs) := by
+  obtain ⟨hok, hn, hv, _, htrue, hsame⟩ :=
+    matcher_complete_single E A root np0 hno htopo hsingle hroot hinst
+  obtain ⟨r, hr, hrn, hro⟩ := patternMatch_of_ok E A root false hok hn hv hchk hinst.cond
+  refine ⟨r, hr, ?_⟩
+  rw [hrn, hro]
+  constructor
+  · intro hs
+    have hokT : (matcherMatch E root true).ok = true := by
+      cases hc : (matcherMatch E root true).ok with
+      | true => rfl
+      | false => rw [patternMatch_none_of_not_ok E root true hc] at hs; simp at hs
+    rw [htrue] at hokT
+    exact validToReplace_removable _ _ _ hokT
+  · intro hrem
+    have hv' := removable_validToReplace _ _ _ hrem
+    have hokT : (matcherMatch E root true).ok = true := by rw [htrue]; exact hv'
+    have heq := hsame hokT
+    obtain ⟨r', hr', _, _⟩ := patternMatch_of_ok E A root true hokT
+      (by rw [heq]; exact hn) (by rw [heq]; exact hv) hchk hinst.cond
+    simp [hr']
 
 end OV.C06
